@@ -223,6 +223,10 @@ func instrList(list []ast.Stmt) []ast.Stmt {
 			if hn == nil || isNilNode(hn) {
 				continue
 			}
+			if _, isAssign := s.(*ast.AssignStmt); !isAssign && containsDBClose(hn) {
+				// db.Close() in the header of an if / switch / return: parked while a read transaction is open
+				out = append(out, call("CloseWait", lit("db.Close")))
+			}
 			for _, l := range syncOps(hn) {
 				out = append(out, yieldStmt(l))
 			}
@@ -232,6 +236,24 @@ func instrList(list []ast.Stmt) []ast.Stmt {
 	}
 
 	return out
+}
+
+func containsDBClose(n ast.Node) bool {
+	found := false
+	ast.Inspect(n, func(x ast.Node) bool {
+		if _, ok := x.(*ast.FuncLit); ok {
+			return false
+		}
+		if c, ok := x.(*ast.CallExpr); ok {
+			if sel, ok := c.Fun.(*ast.SelectorExpr); ok && sel.Sel.Name == "Close" && strings.HasSuffix(exprStr(sel.X), ".db") {
+				found = true
+			}
+		}
+
+		return true
+	})
+
+	return found
 }
 
 func isNilNode(n ast.Node) bool {
